@@ -43,14 +43,17 @@ pub fn idx(a: Ipv4Addr) -> i64 {
 }
 
 /// How client `c` identifies itself on the wire: (chaddr, optional client-id).
-/// c%3==1: hardware address only; c%3==2: client-id = 01+mac; c%3==0: a
-/// client-id while SHARING the hardware address of client 1 (the client-id
-/// must win).
+/// c%3==1: hardware address only; c%3==2: own hardware address and the
+/// client-id 01 + the hardware address of client c-1 (a hardware-only
+/// client): the two identities differ only in the type octet and are two
+/// clients all the same -- a server that strips the type octet of a
+/// client-id merges them; c%3==0: a client-id while SHARING the hardware
+/// address of client 1 (the client-id must win).
 pub fn client_wire(c: i64) -> (Vec<u8>, Option<Vec<u8>>) {
     let mac = |n: i64| vec![0x02, 0, 0, 0, (n >> 8) as u8, n as u8];
     match c % 3 {
         1 => (mac(c), None),
-        2 => (mac(c), Some([vec![1u8], mac(c)].concat())),
+        2 => (mac(c), Some([vec![1u8], mac(c - 1)].concat())),
         _ => (mac(1), Some(format!("id-{}", c).into_bytes())),
     }
 }
